@@ -353,3 +353,33 @@ pub fn replay(_ctx: &Ctx, sub: &str, input: &serde_json::Value) -> Result<(), Fa
         _ => Err(fail!("bad-replay", "sub {sub} has no replay")),
     }
 }
+
+/// libFuzzer differential target: first 3 bytes choose up to three cuts, the rest is the stream.
+/// Oracle: if the one-shot parse of the first record succeeds the segmented reader reports it exactly once
+/// on the completing chunk; otherwise no chunking may produce a result.
+pub fn fuzz_segments(data: &[u8]) {
+    if data.len() < 8 {
+        return;
+    }
+    let raw: Vec<u16> = data[..3].iter().map(|b| (*b as u16) * 257).collect();
+    let stream = &data[3..];
+    if stream.len() < 5 || stream[0] != 0x16 {
+        // reader contract for non-handshake starts: never a result
+        let mut r = TlsClientHelloReader::new();
+        for c in split(stream, &cut_positions(&raw, stream.len())) {
+            if let Ok(Some(_)) = r.add_bytes(&c) {
+                panic!("result for a stream that does not start with a handshake record");
+            }
+        }
+        return;
+    }
+    let rec_len = 5 + u16::from_be_bytes([stream[3], stream[4]]) as usize;
+    if rec_len > stream.len() {
+        return;
+    }
+    let record = &stream[..rec_len];
+    let cuts = cut_positions(&raw, stream.len());
+    if let Err(f) = check_reader(record, stream, &cuts) {
+        panic!("C08 violated: {} :: {}", f.what, f.detail);
+    }
+}
